@@ -3,7 +3,7 @@
    Statements only. *)
 From Coq Require Import NArith List Bool.
 From LC Require Import Bits Types BitboardModel MoveModel ZobristModel PositionModel MakeModel FenModel
-  Spec.Rules Refine.Abs Refine.Board Refine.Make Refine.Wf Refine.MakeAbs Refine.SpecFits MakeFacts HashFacts FenFacts.
+  Spec.Rules Refine.Abs Refine.Board Refine.Make Refine.Wf Refine.MakeAbs Refine.SpecFits MakeFacts HashFacts FenFacts ValidExact.
 Import ListNotations.
 Local Open Scope N_scope.
 
@@ -34,6 +34,12 @@ Theorem C05_position_only : forall K p q, wf p = true -> wf q = true ->
   c0 p = c0 q -> c1 p = c1 q -> c2 p = c2 q -> c3 p = c3 q -> ep p = ep q ->
   calculate_hash K p = calculate_hash K q.
 Proof. exact calculate_hash_position_only. Qed.
+
+(* run level: after every operation of every history of generated moves, null moves (out of check) and undos, in any
+   order, from a start position of the domain (e.g. set_fen's result) *)
+Theorem C05_every_history : forall K dfrc p0 p st, dom K dfrc p0 -> hist K p0 p st -> hash_ok K p.
+Proof. exact hist_hash. Qed.
+Print Assumptions C05_every_history.
 
 Print Assumptions C05_set_fen. Print Assumptions C05_makemove. Print Assumptions C05_every_legal_move. Print Assumptions C05_makenull. Print Assumptions C05_undomove.
 Print Assumptions C05_undonull. Print Assumptions C05_reachable. Print Assumptions C05_position_only.
